@@ -442,9 +442,12 @@ func main() {
 	}
 	// watchdog: no single case may run longer than 60 s
 	progress := make(chan struct{}, 1)
+	stopWatchdog := make(chan struct{})
 	go func() {
 		for {
 			select {
+			case <-stopWatchdog:
+				return
 			case <-progress:
 			case <-time.After(90 * time.Second):
 				fmt.Println("INFRA: no case finished within 90 s (possible hang); aborting")
@@ -469,6 +472,7 @@ func main() {
 			return map[string]any{"kind": c.Kind, "bytes": c.Printable, "stress": c.Stress, "outcome": res.Outcome}
 		})
 	})
+	close(stopWatchdog) // the background phase has its own per-document deadlines
 	// (d) background goroutine
 	var bg []Case
 	for i, c := range cases[:nDocs] {
